@@ -25,7 +25,14 @@ pub enum Spec {
     Pair { a: J, b: J },
     /// two layouts that differ only in their expiry (whole seconds)
     Expiry { layout: LayoutSpec, key: KeySpec, a: i64, b: i64 },
+    /// two documents whose field `field` is `pad` filler bytes, then one of two sibling characters (equal UTF-8
+    /// length, equal leading bytes, different last byte), then `tail`: the character sits at a chosen byte offset
+    Sibling { field: u8, pad: u16, pair: u8, tail: u8, key: KeySpec },
 }
+
+const SIBLINGS: &[(char, char)] = &[('é', 'ü'), ('中', '丮'), ('😀', '😁'), ('\u{80}', '\u{81}'), ('\u{7ff}', '\u{7fe}'), ('\u{ffff}', '\u{fffe}'), ('a', 'b')];
+const TAILS: &[&str] = &["", " says \"hello\"", "\\", "\"", "x\n\"q", "\t", " tail without anything special", "\\n"];
+
 
 /// expiry instants biased to calendar boundaries (new year, month ends, leap days, midnight)
 fn expiry_pair() -> BoxedStrategy<(i64, i64)> {
@@ -121,7 +128,7 @@ impl Property for C05 {
         "Generated: (a) a layout or link M1 (builders, adversarial text) and M2 = the wire tree of M1 with ONE site edited (string leaf: \
          near-collision rewrites LF<->backslash-n, quotes, backslashes, control characters, retyping; numbers +-1; member rename/removal; text \
          moved between key and value; array element removed/duplicated/merged/split/swapped); (b) batches of 24 small links over a 16-string \
-         near-collision alphabet; (c) pairs of JSON values (independent or one edit apart). Oracle: (a) when the edited tree parses and \
+         near-collision alphabet; (c) pairs of JSON values (independent or one edit apart); (d) pairs of documents whose chosen field holds filler, then one of two sibling characters (same UTF-8 length and leading bytes), then a tail with or without quotes/backslashes, the character placed at byte offsets around 64, 128, 4096, 8192, 16384 and at random. Oracle: (a) when the edited tree parses and \
          parsed(M2) != parsed(M1), then - after the genuine block has been verified once in the same process - the block {signatures: sign(M1), signed: M2} must fail verify(1,[k]), and Ed25519 signatures of M1 and M2 \
          differ; (b) equal Ed25519 signatures (= equal signed bytes) only for equal values; (c) v1 != v2 => canonicalize(v1) != canonicalize(v2). \
          Non-trivial: (a) the edit is observable (parsed values differ); (b) always; (c) values differ. Distinct by the exact case."
@@ -143,6 +150,8 @@ impl Property for C05 {
             2 => near_pair().prop_map(|(a, b)| Spec::Pair { a, b }),
             1 => (json_value(false), json_value(false)).prop_map(|(a, b)| Spec::Pair { a, b }),
             3 => (layout_spec(false, true), ed_key(), expiry_pair()).prop_map(|(layout, key, (a, b))| Spec::Expiry { layout, key, a, b }),
+            2 => (0u8..16, prop_oneof![4 => 56u16..72, 2 => 120u16..136, 1 => 0u16..300, 1 => 4088u16..4100, 1 => 8184u16..8196, 1 => 16376u16..16388], 0..SIBLINGS.len() as u8, 0..TAILS.len() as u8, ed_key())
+                .prop_map(|(field, pad, pair, tail, key)| Spec::Sibling { field, pad, pair, tail, key }),
         ]
         .boxed()
     }
@@ -208,6 +217,33 @@ impl Property for C05 {
                                 "different signed bytes");
                         }
                     }
+                }
+            }
+            Spec::Sibling { field, pad, pair, tail, key } => {
+                o.class("sibling-characters-at-offset");
+                let (c1, c2) = SIBLINGS[*pair as usize % SIBLINGS.len()];
+                let t = TAILS[*tail as usize % TAILS.len()];
+                let s1 = format!("{}{}{}", "a".repeat(*pad as usize), c1, t);
+                let s2 = format!("{}{}{}", "a".repeat(*pad as usize), c2, t);
+                let m1 = crate::props::c11::doc_with_text(*field as usize, &s1).to_lib();
+                let m2 = crate::props::c11::doc_with_text(*field as usize, &s2).to_lib();
+                if m1 == m2 {
+                    return o;
+                }
+                o.nontrivial(format!("S|{}|{}|{}|{}", field, pad, pair, tail));
+                let sk = private(key);
+                let pk = sk.public().clone();
+                let (Ok(b1), Ok(b2)) = (Metablock::new(m1, &[&*sk]), Metablock::new(m2.clone(), &[&*sk])) else {
+                    o.fail("C05/sign/error", "signing failed", "signed block");
+                    return o;
+                };
+                let _ = b1.verify(1, [&pk]);
+                let stale = Metablock { signatures: b1.signatures.clone(), metadata: m2 };
+                if stale.verify(1, [&pk]).is_ok() {
+                    o.fail("C05/stale-signature-accepted/sibling-character", format!("signature over a document with {:?} at byte offset {} of field {} verifies over the document with {:?} there (tail {:?})", c1, pad, field % 16, c2, t), "Err");
+                }
+                if key.is_deterministic() && b1.signatures[0].value().as_bytes() == b2.signatures[0].value().as_bytes() {
+                    o.fail("C05/equal-signed-bytes/sibling-character", format!("documents with {:?} / {:?} at byte offset {} of field {} have equal signed bytes (tail {:?})", c1, c2, pad, field % 16, t), "different signed bytes");
                 }
             }
             Spec::Expiry { layout, key, a, b } => {
